@@ -30,7 +30,8 @@ Proof. exact time_shift. Qed.
 Print Assumptions c17_time_shift.
 
 (* Checkpoint: at a quiescent point (only the driver exists and runs; nothing queued, asleep, parked, locked,
-   joinable) the rest of the run is determined by the driver's remaining program, the random count and the injector
+   joinable) the rest of the run is determined by the driver's remaining program (and client variables: CAS / wait
+   results, the recorded clock reading [epoch] absolute deadlines are counted from), the random count and the injector
    state, up to the renaming rho of ids, the offset D of the clock and the offset dn of the fiber counter. *)
 Theorem c17_checkpoint : forall rho, injective rho -> forall D dn cf draws alloc1 alloc2,
   (forall k, alloc2 (k + dn) = rho (alloc1 k)) ->
@@ -38,6 +39,7 @@ Theorem c17_checkpoint : forall rho, injective rho -> forall D dn cf draws alloc
   quiescent_at s1 d1 r1 -> quiescent_at s2 (rho d1) r2 ->
   prog r2 = prog r1 -> lastcas r2 = lastcas r1 -> lastto r2 = lastto r1 ->
   rc s2 = rc s1 -> inj s2 = inj s1 -> now s2 = (now s1 + D)%N -> nsp s2 = nsp s1 + dn ->
+  epoch s2 = (epoch s1 + D)%N ->
   forall fuel, run cf draws alloc2 fuel s2 = map (xobs rho D) (run cf draws alloc1 fuel s1).
 Proof. exact checkpoint. Qed.
 Print Assumptions c17_checkpoint.
@@ -181,3 +183,11 @@ Example c17_queues_populated :
   existsb (fun f => mem f (snodes s)) (wnodes s) = true.
 Proof. vm_compute. repeat split; auto. Qed.
 
+
+(* Sleepers with EQUAL deadlines share one bucket of the sleep map and are woken in the order in which they went to
+   sleep (std::map<deadline, BiList>: PushBack into the bucket, PushAll keeps the bucket's order) -- never in the
+   order of ids or addresses: fibers 7, 3, 5 (in this order) sleep until 500, fiber 4 until 400. *)
+Example c17_equal_deadlines_wake_in_insertion_order :
+  let m := sm_push 500 5%nat (sm_push 400 4%nat (sm_push 500 3%nat (sm_push 500 7%nat []))) in
+  m = [(400, [4%nat]); (500, [7%nat; 3%nat; 5%nat])] /\ fst (wake 510 m) = [4%nat; 7%nat; 3%nat; 5%nat] /\ snd (wake 510 m) = [].
+Proof. vm_compute. repeat split. Qed.
